@@ -17,7 +17,7 @@ import tempfile
 
 from checks import common
 from checks.common import outcome, ddmin
-from checks.common.cases import explore_cases
+from checks.common.cases import explore_cases, run_case
 
 PROP = 'C14'
 LEVEL = 'exploration'
@@ -310,6 +310,10 @@ def blob(c):
     n = c['size']
     if c['style'] == 'random':
         return bytes(r.getrandbits(8) for _ in range(n))
+    if c['style'] == 'bigrun':
+        # cheap to build, megabytes long, not a single repeated byte
+        block = bytes(r.getrandbits(8) for _ in range(997))
+        return (block * (n // 997 + 1))[:n]
     if c['style'] == 'text':
         words = [b'lorem', b'ipsum', b'\n', b' ', b'dolor', b'\x00', b'\xff\xfe']
         out = bytearray()
@@ -419,8 +423,20 @@ def shrink(case, fails):
     return c
 
 
+BIG_SIZES = [2 ** 24 + 1, 2 ** 25 + 1, 2 ** 24, 3 * 2 ** 24 + 5, 2 ** 20 + 1, 2 ** 22 - 1, 2 ** 24 - 1, 2 ** 26 + 1,
+             2 ** 23 + 7, 5 * 2 ** 20, 2 ** 26 - 1, 2 ** 25, 10 ** 7, 2 ** 21, 2 ** 16 * 257, 2 ** 27 + 3]
+
+
 def run(ctx):
     try:
+        # byte strings of tens of megabytes (buffer / window / member-size thresholds of an implementation)
+        sizes = [z for i, z in enumerate(BIG_SIZES) if i % ctx.nshards == ctx.shard]
+        if not ctx.thorough:
+            sizes = sizes[:1]
+        for i, n in enumerate(sizes):
+            run_case(ctx, {'kind': 'gzip', 'size': n, 'style': 'bigrun', 'seed': n % 1000,
+                           'levels': [1] if not ctx.thorough else [1, 6]}, check, 'big-gzip', None, {})
+            ctx.stats.peak('max_blob_bytes', n)
         explore_cases(ctx, gen, check, {'quick': 1200, 'thorough': 12000}[ctx.tier], 'enc', shrink)
     finally:
         if _glob_dir:
